@@ -22,10 +22,12 @@ def runs(prop, tier):
     ks_q = "1,2,3" if prop != "C06" else "0,1,2,3"
     ks_t = "1,2,3,4,n+1,1000" if prop != "C06" else "0,1,2,3,4,n+1,1000"
     q = [("G(0..4) x A3, k in {%s}" % ks_q, [["--n", n, "--alpha", "A3", "--ks", ks_q] for n in range(0, 5)]),
-         ("G(5) x A2, k in {%s}" % ks_q, [["--n", 5, "--alpha", "A2", "--ks", ks_q]])]
+         ("G(5) x A2, k in {%s}" % ks_q, [["--n", 5, "--alpha", "A2", "--ks", ks_q]]),
+         ("blob grammar K=3,T=2 x patterns U, M3, k in {%s}" % ks_q, [["--grammar", "blobs:3:2", "--alpha", a, "--ks", ks_q] for a in ("U", "M3")]),
+         ("dense families x U", [["--families", "K:6,K:7,wheel:6,prism:4,petersen,Kb:3:4,grid:3:4,cube:3", "--alpha", "U", "--ks", ks_q]])]
     if tier == "quick":
         return q
-    return [("G(0..4) x A3, k in {%s}" % ks_t, [["--n", n, "--alpha", "A3", "--ks", ks_t] for n in range(0, 5)]),
+    return q[2:] + [("G(0..4) x A3, k in {%s}" % ks_t, [["--n", n, "--alpha", "A3", "--ks", ks_t] for n in range(0, 5)]),
             ("G(5) x A2, k in {%s}" % ks_t, [["--n", 5, "--alpha", "A2", "--ks", ks_t]]),
             ("G(5) x A3, k in {%s}" % ks_t, [["--n", 5, "--alpha", "A3", "--ks", ks_t]]),
             ("G(5) x D, k in {%s}" % ks_q, [["--n", 5, "--alpha", "D", "--ks", ks_q]]),
